@@ -168,12 +168,12 @@ CHECKS = {
     "C17": {
         "engine": "c17",
         "level": "exploration",
-        "rule": "one evaluation = one delivered (proof, verifying key, public witness) triple judged twice: by the native verifier configured with the matching recursion options and by the in-circuit verifier evaluated on the test engine with the triple as assignment; the verdicts must agree. A case = (configuration in {Groth16 BLS12-377 in BW6-761, PLONK BLS12-377 in BW6-761 (native two-chain gadgets), Groth16 BN254 in BN254 (emulated)}, inner circuit with / without a commitment, vk fixed in the outer circuit or supplied as witness, fault tape); wire faults: none, replay against another session's public inputs, proof made under an independent setup, key / proof of another circuit with the same public inputs, public input +-1 / swapped, proof group element or scalar substituted (negated, multiplied, added to / replaced by another element of this or another proof), verifying-key element substituted",
+        "rule": "one evaluation = one delivered (proof, verifying key, public witness) triple judged twice: by the native verifier configured with the matching recursion options and by the in-circuit verifier evaluated on the test engine with the triple as assignment; the verdicts must agree. A case = (configuration in {Groth16 BLS12-377 in BW6-761, PLONK BLS12-377 in BW6-761 (native two-chain gadgets), Groth16 BN254 in BN254 (emulated)}, inner circuit with / without a commitment, vk fixed in the outer circuit or supplied as witness, fault tape); wire faults: none, replay against another session's public inputs, proof made under an independent setup, key / proof of another circuit with the same public inputs, public input +-1 / swapped, proof group element or scalar substituted (negated, multiplied, added to / replaced by another element of this or another proof), verifying-key element substituted; key switching (index selects one of two keys, proof for either); challenge-binding probe for the PLONK opening quotients",
         "quick": {"runs": 320, "budget_s": 240, "selftest_runs": 2, "params": {"faults": 24}},
         "thorough": {"runs": 8000, "budget_s": 3000, "selftest_runs": 3, "params": {"faults": 60}},
-        "expect_probes": ["native_accepts", "native_rejects", "replay", "other_setup_proof", "other_circuit", "witness_altered", "proof_element", "vk_element", "cfg:groth16/bls12_377-in-bw6_761", "cfg:plonk/bls12_377-in-bw6_761", "cfg:groth16/bn254-in-bn254", "inner:C"],
+        "expect_probes": ["native_accepts", "native_rejects", "replay", "other_setup_proof", "other_circuit", "witness_altered", "proof_element", "vk_element", "key_switching", "challenge_binding_probes", "cfg:groth16/bls12_377-in-bw6_761", "cfg:plonk/bls12_377-in-bw6_761", "cfg:groth16/bn254-in-bn254", "inner:C"],
         "components": {"real": REAL + ["std/recursion verifier gadgets and everything below them, evaluated on the test engine", "native groth16 / plonk provers and verifiers (inner proofs, reference verdict)"], "stub": ["wire between inner prover and verifiers (harness transport with seeded faults)", "constraint backend of the outer circuit (test engine instead of compiled solver)"]},
-        "assumptions": ["substituted group elements stay in the prime-order subgroup and are never the point at infinity (the in-circuit arithmetic documents infinity as outside its domain unless complete arithmetic is requested)", "the outer circuit is evaluated on the test engine: assertion semantics are the engine's; hint answers are honest (the dishonest-prover clause of the gadgets below is C16/C12)", "key-switching variants are not exercised"],
+        "assumptions": ["substituted group elements stay in the prime-order subgroup and are never the point at infinity (the in-circuit arithmetic documents infinity as outside its domain unless complete arithmetic is requested)", "the outer circuit is evaluated on the test engine: assertion semantics are the engine's; hint answers are honest (the dishonest-prover clause of the gadgets below is C16/C12)", "key switching is exercised with two keys of circuits without commitments (Groth16 and PLONK BLS12-377 in BW6-761)"],
     },
     "C06": {
         "engine": "c06",
